@@ -126,7 +126,11 @@ class TablesAdapter(Adapter):
             for (i, j), (t1, t2), v in pt.iterpairs(**kw):
                 out.append([i + 1, j + 1, [] if v is None else list(v)])
                 names_ok = names_ok and t1 == T[i] and t2 == T[j]
-            return {'out': out, 'names_ok': names_ok}
+            # System.iterpairs(full, diagonal) promises the same visiting order over the System's type list
+            import pyPRISM
+            sysout = [[i + 1, j + 1] for (i, j), (t1, t2) in pyPRISM.System(list(T)).iterpairs(**kw)]
+            sysnames = all(t1 == T[i] and t2 == T[j] for (i, j), (t1, t2) in pyPRISM.System(list(T)).iterpairs(**kw))
+            return {'out': out, 'names_ok': names_ok and sysnames, 'sys_out': sysout}
         if act == 'VTSet':
             vt[self._keys(l['k'], w)] = l['v']
             return {}
@@ -203,6 +207,8 @@ class TablesAdapter(Adapter):
         for k in ('raises', 'out', 'newvals', 'shares'):
             if k in label and obs.get(k) != label[k]:
                 out.append(('Obs.' + k, {'expected': label[k], 'observed': obs.get(k)}))
+        if 'sys_out' in obs and obs['sys_out'] != [x[:2] for x in label['out']]:
+            out.append(('Obs.system_iterpairs', {'expected': [x[:2] for x in label['out']], 'observed': obs['sys_out']}))
         if obs.get('names_ok') is False:
             out.append(('Obs.type_names', {'observed': 'iteration yielded wrong type names'}))
         if obs.get('returns_self') is False:
